@@ -49,6 +49,7 @@ var YAMLHostile = []string{"", " ", "  ", "~", "null", "Null", "NULL", "true", "
 	"2001-12-14", "2001-12-14t21:59:43.10-05:00", "2001-12-14 21:59:43.10 -5", "2002-1-1",
 	"---", "...", "--- a", "- a", "-", "- ", "? a", "?", ": a", ":", "a: b", "a:", "a :b", "a #b", "#a", "# a", "a#b", "&a", "*a", "!a", "!!str a", "|", ">", "|-", ">+", "| a",
 	"@a", "`a", "%a", "%YAML 1.2", "{a}", "{", "}", "[a]", "[", "]", ",", "a, b", "'", "''", "'a'", "\"", "\"\"", "\"a\"", "\"\"\"", "'''", "a'b", "a\"b", "\\", "\\n", "a\\", "<<", "=",
+	"x\n\t\ny", "x\n \ny", "x\n  \n y", "p\n\nq", "p\n\n\nq", "a\n\tb", "a\n\t", "a \nb", "a\t\nb", "x\n\t\n\ny", "x\ny\n", "x\ny\n\n", "x\n\n", "x\n y\nz", "x\n\ty\nz",
 	" a", "a ", "\ta", "a\t", "\n", "\n\n", "a\n", "\na", "a\nb", "a\n\nb", "a\n b", " a\nb", "a\n", "a\r\nb", "\r", "a\rb", "\n \t", "a\n\t", "  a\n b\n",
 	"\x00", "\x01", "\x07", "\x1b", "\x7f", "\u0085", "\u00a0", "\u00ad", "\u2028", "\u2029", "\ufeff", "\ufffd", "\ufffe", "\U0001f600", "\U0010ffff", "é", "日本語", "\u202e", "\u200b",
 	"null ", " null", "~ ", "true\n", "1 ", "0.", "1e", "1__0", "0x", "_", "__", "<<: a", "a: b: c", "a:\tb", "key: [a", "x\x00y", "\\u0041", "\\x41", "%", "%%", "a%", "!", "!!", "&", "*", "**", "&&", "|+1", ">-2"}
@@ -511,4 +512,15 @@ func (n *Node) MaxDepth() int {
 		return d + 1
 	}
 	return d
+}
+
+// Multiline is the sub-pool of strings that are emitted as block scalars.
+func Multiline() []string {
+	var out []string
+	for _, s := range YAMLHostile {
+		if strings.Contains(s, "\n") {
+			out = append(out, s)
+		}
+	}
+	return out
 }
